@@ -1077,12 +1077,13 @@ func (c17) Shrink(raw json.RawMessage) []json.RawMessage {
 
 func (c17) Meta(env *kernel.Env) kernel.Meta {
 	return kernel.Meta{
-		Rule: "a run = one generated module tree (1-6 package directories from prefix-colliding families such as pa1|pa2, inner|inner2, a|ab|a/b, nested under optional outer directories) x a file set of 1-5 files (duplicates, shuffled) x a working directory (module root, a package dir, the parent, an unrelated dir, /) x a spelling per argument (absolute, relative, ./relative, dir/../dir/file) x legal bystanders in the package directories (test files, build-tag-excluded files, _ and . files, testdata, nested modules) x at most one environment fault, optionally repaired and loaded again; distinct = distinct (directory set of the arguments, cwd class, spellings, outer dirs, fault); non-trivial = files from at least two directories, or a fault",
-		Real: []string{"analysis.LoadSources (current tree)", "os, path/filepath, go/packages, the `go list` subprocess, a real scratch file system"},
+		Rule: "a run = one generated module tree (1-6 package directories from prefix-colliding families such as pa1|pa2, inner|inner2, a|ab|a/b, nested under optional outer directories) x a file set of 1-5 files (duplicates, shuffled) x a working directory (module root, a package dir, the parent, an unrelated dir, /) x a spelling per argument (absolute, relative, ./relative, dir/../dir/file) x legal bystanders in the package directories (test files, build-tag-excluded files, _ and . files, testdata, nested modules) x at most one environment fault, optionally repaired and loaded again; one run in five carries //line directives; one run in five is a configuration-file run instead: the built command `gomacro -config` over 1-4 keys in a module under directories and files named with $name, quotes, blanks, glob characters, with a twin tree at the path a careless expansion leads to (void when `go list` refuses a directory); distinct = distinct (directory set of the arguments, cwd class, spellings, outer dirs, fault); non-trivial = files from at least two directories, or a fault",
+		Real: []string{"analysis.LoadSources (current tree)", "cmd/gomacro.go built unmodified from the current tree (newConfigFromJSON, Config.run, runActions, saveOutputs) for the configuration-file runs", "os, path/filepath, go/packages, the `go list` subprocess, a real scratch file system"},
 		Stub: []string{"none (the environment is real, its content is generated)"},
 		Assumptions: []string{
 			"files are always arguments of one module; the loader's behaviour across modules is not part of the property",
 			"every environment fault must surface as a non-nil error; the error text is not judged",
+			"configuration-file runs: a package directory that `go list` refuses (file names the go command does not accept as source files) is outside the precondition and the run is void; no formatter is installed (PATH holds go and which only)",
 		},
 	}
 }
